@@ -83,7 +83,7 @@ def run():
             roles.add("newline-below-tree")
         if matched_anc[-1] == "":
             roles.add("exhaustive-matches-empty-path")
-        if any(a is not None and not R.plain_tree_tail(a) for a in targets[i][3]):
+        if any(R.exhaustive_heuristic_family(a) for a in targets[i][3]):
             roles.add("not-plain-tree-tail")
         rep.candidate(roles, {"short": {"program": targets[i][0], "is_exhaustive": "Always",
                                         "matches": matched_anc[-1], "but_not_descendant": w}})
